@@ -15,6 +15,8 @@ Conditions that appear in the statements, all decidable on the final state:
 After either event the as-coded protocol really breaks: `abort_conserves_fails`, `alloc_failure_crashes`.
 -/
 import TbbVerif.Proofs.C09.Final
+import TbbVerif.Proofs.C09.PgQuiet
+import TbbVerif.Proofs.C09.Seq
 
 namespace TbbVerif.C09
 
@@ -347,5 +349,217 @@ example :
     ok s.g.toP ∧ capOK s.g ∧ s.g.done.map (fun d => (d.tid, d.res)) = [(0, .ok), (1, .val 1), (0, .ok), (1, .val 2)] := by
   intro s
   exact ⟨⟨by decide, by decide⟩, ⟨by decide, by decide, by decide⟩, by decide⟩
+
+
+/-! ## 4. page life cycle of one `micro_queue` (lane), at atomic-access granularity
+
+Model `TbbVerif.C09.Pg` (Model/C09Page.lean): one lane, any number of threads, each with a list of lane operations
+`push n i v f` / `pop n i` (round = page `n`, slot `i`; which rounds a thread gets is decided by the ticket dispenser of the
+model above: tickets are unique while `ok`, and `lane_bijection` maps them to distinct (lane, round) pairs).  A step is one atomic access of
+`prepare_page` / `push` / `pop` / the pop finalizer (turnstile loads, `page_mutex` exchange and release, `head_page` / `tail_page`
+loads and stores, mask load / store, `head_counter` / `tail_counter` publication), or one of the plain accesses `q->next = p`,
+`p->next`, the element construction / move-out, the page allocation / deallocation.
+Hypotheses of the four theorems: the initial lane `l0` is a quiescent lane satisfying the lane invariant (`LInv`, `QLane`; the empty
+lane does: `Pg.linv_empty`, `Pg.qlane_empty`; so does the result of `copyLane`), the programs are well formed (`Pg.wf`: every round is
+pushed at most once and popped at most once — decidable) and use rounds not yet handed out (`Pg.fresh` — decidable); the conclusion is
+for every schedule, as long as no page allocation has failed (`poisoned = false`).  What happens after a failed allocation:
+`alloc_failure_races_push`, `bad_last_alloc_leaks_page` below (and `alloc_failure_crashes` above).
+`Pg.reach l0 progs sched` is the state reached from the quiescent lane `l0` by the programs under the schedule (Proofs/C09/PgQuiet.lean).
+-/
+
+/-- **page_alloc_free_once.**  For all schedules of any number of producers and consumers: no page number is allocated twice and no
+page is freed twice or without having been allocated (`dalloc`, `dfree` are raised by the model's allocator on such a call); the
+state of every page only moves `unallocated → live → freed` (`pageLe`); and a freed page lies entirely below `head_counter`
+(`n < hP`: every one of its slots belongs to a round that has been consumed, and since rounds are unique none of them will ever be
+used again) and holds no constructed object. -/
+theorem page_alloc_free_once (l0 : Pg.Lane) (progs : List (List Pg.LOp)) (sched : List Nat) (hg : Pg.LInv l0) (hq : Pg.QLane l0)
+    (hwf : Pg.wf progs) (hfr : Pg.fresh l0 progs) (hp : (Pg.reach l0 progs sched).l.poisoned = false) :
+    let s := Pg.reach l0 progs sched
+    s.l.dalloc = false ∧ s.l.dfree = false ∧ (∀ n, Pg.pageLe (l0.pages n).st (s.l.pages n).st) ∧
+    ∀ n, (s.l.pages n).st = .freed → n < s.l.hP ∧ ∀ k v, s.l.slot n k ≠ .cons v := by
+  intro s
+  obtain ⟨hi, _⟩ := Pg.reach_full l0 progs sched hg hq hwf hfr hp
+  obtain ⟨_, _, c3, c4, _, _⟩ := hi.g.clean
+  refine ⟨c4, c3, fun n => Pg.page_run (Pg.initFrom l0 progs) sched n, fun n hf => ?_⟩
+  have hlt := hi.g.freed n hf
+  refine ⟨hlt, fun k v hc => ?_⟩
+  have := (hi.g.consR n k v hc).1
+  simp only [Pg.rle] at this
+  omega
+
+/-- **no_access_after_free.**  For all schedules: no thread reads or writes a page — a slot, the mask, the `next` pointer — after the
+page was deallocated (`uaf`), and no thread dereferences a null / invalid / never allocated page pointer (`wild`).  Every page access of
+the model goes through `Lane.acc`, which raises these flags.  This is where the order "publish `head_counter`, then deallocate" matters
+only through the finalizer reading `p->next` before the free, and where `page_mutex` matters: the link `q->next = p` of `prepare_page`
+and the finalizer's `p->next` / `tail_page = nullptr` exclude each other (the proof's `no_mx`). -/
+theorem no_access_after_free (l0 : Pg.Lane) (progs : List (List Pg.LOp)) (sched : List Nat) (hg : Pg.LInv l0) (hq : Pg.QLane l0)
+    (hwf : Pg.wf progs) (hfr : Pg.fresh l0 progs) (hp : (Pg.reach l0 progs sched).l.poisoned = false) :
+    (Pg.reach l0 progs sched).l.uaf = false ∧ (Pg.reach l0 progs sched).l.wild = false := by
+  obtain ⟨hi, _⟩ := Pg.reach_full l0 progs sched hg hq hwf hfr hp
+  exact ⟨hi.g.clean.1, hi.g.clean.2.1⟩
+
+/-- **no_page_leak_at_quiescence.**  When no operation is in flight: the live pages are exactly the pages `hP ≤ n < L`, where `hP` is the
+page of `head_counter` and `L = ⌈tail round / items_per_page⌉` — the pages holding the unconsumed rounds `[head, tail)` plus, when the
+tail stands inside a page, that partially filled page; they are exactly the pages reachable from `head_page` (`head_page` is page `hP`,
+`next` links consecutive pages, the last one is `tail_page` and has `next = nullptr`; both are `nullptr` when there is none), and
+`page_mutex` is free.  (`clear()` / the destructor / `assign` on such a lane are the executable `Pg.clearPages` / `Pg.copyLane`; they are compared with
+the real code on the end state of every E-SHIM run — all pages freed, each once; the copy has the same chain and the same objects — and through the page
+count of the sequential differential; there is no theorem about them yet.) -/
+theorem no_page_leak_at_quiescence (l0 : Pg.Lane) (progs : List (List Pg.LOp)) (sched : List Nat) (hg : Pg.LInv l0) (hq : Pg.QLane l0)
+    (hwf : Pg.wf progs) (hfr : Pg.fresh l0 progs) (hp : (Pg.reach l0 progs sched).l.poisoned = false)
+    (hqu : Pg.quiescent (Pg.reach l0 progs sched)) :
+    let l := (Pg.reach l0 progs sched).l
+    l.L = (if l.tI = 0 then l.tP else l.tP + 1) ∧
+    (∀ n, (l.pages n).st = .live ↔ (l.hP ≤ n ∧ n < l.L)) ∧
+    l.hp = (if l.hP < l.L then .pg l.hP else .null) ∧ l.tp = (if l.hP < l.L then .pg (l.L - 1) else .null) ∧
+    (∀ n, l.hP ≤ n → n < l.L → (l.pages n).next = if n + 1 < l.L then .pg (n + 1) else .null) ∧ l.mutex = none := by
+  intro l
+  obtain ⟨hi, hw⟩ := Pg.reach_full l0 progs sched hg hq hwf hfr hp
+  obtain ⟨hql, hph, hU⟩ := Pg.quiescent_facts _ hi hw hqu
+  have hUL : l.U ≤ l.L := hi.g.UleL
+  have hU' : l.U = l.hP := hU
+  have hph' : l.ph = .idle := hph
+  refine ⟨?_, ?_, ?_, ?_, ?_, hql.mx⟩
+  · by_cases hz : l.tI = 0
+    · simp only [hz, if_true]; exact hql.lk hz
+    · simp only [hz, if_false]; exact hi.g.Lrel.1 hz
+  · intro n
+    refine ⟨fun h => by have := hql.pg n h; rw [hU'] at this; exact this, fun h => ?_⟩
+    exact (hi.g.chain n (by rw [hU']; exact h.1) h.2).1
+  · rw [← hU']
+    by_cases h : l.U < l.L
+    · simp only [h, if_true]; exact hi.g.hpC.1 h
+    · have e : l.U = l.L := by omega
+      simp only [h, if_false]
+      have := hi.g.hpC.2 e
+      rw [hph'] at this; simpa using this
+  · rw [← hU']
+    exact hi.g.tpC.1 (by rw [hph']; simp)
+  · intro n h1 h2
+    have := (hi.g.chain n (by rw [hU']; exact h1) h2).2
+    rw [hph'] at this; simpa using this
+
+/-- **item_constructed_destroyed_once.**  For all schedules: no object is constructed over a slot that is not raw memory (`ccons`) and no
+object is destroyed / moved from in a slot that holds no live object (`ddead`); the life of every slot is a prefix of
+`raw → constructed v → destroyed v` or of `raw → failed` (`slotLe`: one construction, one destruction; a slot whose constructor threw is
+`failed` for ever: never destroyed, never delivered — the page-level counterpart of `ctor_failure_isolated`); every value a pop moved
+out comes from a slot that is now destroyed with that value; constructed-and-not-destroyed objects exist only at rounds in
+`[head_counter, tail_counter]` and inside a page; and at quiescence the mask bit of every round in `[head, tail)` says exactly whether the slot
+holds an object (what `clear`, the iterators and `make_copy` rely on). -/
+theorem item_constructed_destroyed_once (l0 : Pg.Lane) (progs : List (List Pg.LOp)) (sched : List Nat) (hg : Pg.LInv l0)
+    (hq : Pg.QLane l0) (hwf : Pg.wf progs) (hfr : Pg.fresh l0 progs) (hp : (Pg.reach l0 progs sched).l.poisoned = false) :
+    let s := Pg.reach l0 progs sched
+    s.l.ccons = false ∧ s.l.ddead = false ∧ (∀ n k, Pg.slotLe (l0.slot n k) (s.l.slot n k)) ∧
+    (∀ e, e ∈ s.l.delivered → s.l.slot e.1 e.2.1 = .dead e.2.2) ∧
+    (∀ n k v, s.l.slot n k = .cons v → Pg.rle s.l.hP s.l.hI n k ∧ Pg.rle n k s.l.tP s.l.tI ∧ k < s.l.ipp) ∧
+    (Pg.quiescent s → ∀ n k, k < s.l.ipp → Pg.rle s.l.hP s.l.hI n k → Pg.rlt n k s.l.tP s.l.tI →
+      ((s.l.pages n).mask k = true ↔ ∃ v, s.l.slot n k = .cons v)) := by
+  intro s
+  obtain ⟨hi, hw⟩ := Pg.reach_full l0 progs sched hg hq hwf hfr hp
+  obtain ⟨_, _, _, _, c5, c6⟩ := hi.g.clean
+  refine ⟨c5, c6, fun n k => Pg.slot_run (Pg.initFrom l0 progs) sched n k, hi.g.deliv,
+    fun n k v hc => ⟨(hi.g.consR n k v hc).1, (hi.g.consR n k v hc).2.1, (hi.g.consR n k v hc).2.2.2⟩, fun hqu n k hk h1 h2 => ?_⟩
+  obtain ⟨hql, _, _⟩ := Pg.quiescent_facts _ hi hw hqu
+  exact hi.g.maskR n k hk h1 h2 (by rw [hql.mv]; intro h; cases h)
+
+/-! ### non-vacuity and the regime after a failed allocation -/
+
+/-- two producers and two consumers on one lane with `items_per_page = 2`: three pages are allocated, two are retired and freed -/
+def exPgProgs : List (List Pg.LOp) :=
+  [[.push 0 0 10 .none, .push 1 0 12 .none], [.push 0 1 11 .ctor, .push 1 1 13 .none, .push 2 0 14 .none],
+   [.pop 0 0, .pop 1 0, .pop 1 1], [.pop 0 1]]
+def exPgSched : List Nat :=
+  List.replicate 12 0 ++ List.replicate 6 1 ++ List.replicate 7 2 ++ List.replicate 14 3 ++ List.replicate 14 0 ++ List.replicate 30 1 ++
+  List.replicate 40 2
+
+example : Pg.wf exPgProgs ∧ Pg.fresh { ipp := 2 } exPgProgs := by decide
+
+set_option maxRecDepth 100000 in
+example :
+    let s := Pg.reach { ipp := 2 } exPgProgs exPgSched
+    s.l.poisoned = false ∧ s.ths.all (fun t => t.pc == .start && t.ops.isEmpty) = true ∧
+    (s.l.hP, s.l.hI, s.l.tP, s.l.tI, s.l.L) = (2, 0, 2, 1, 3) ∧ s.l.delivered = [(0, 0, 10), (1, 0, 12), (1, 1, 13)] ∧
+    ((s.l.pages 0).st, (s.l.pages 1).st, (s.l.pages 2).st) = (.freed, .freed, .live) ∧ s.l.slot 0 1 = .failed ∧ s.l.hp = .pg 2 := by
+  intro s
+  exact ⟨by decide, by decide, by decide, by decide, by decide, by decide, by decide⟩
+
+set_option maxRecDepth 100000 in
+/-- **what remains after a failed page allocation (1): a push that already owns its turn races `invalidate_page`** (closed witness; as coded:
+`prepare_page` loads `tail_page` WITHOUT the mutex when it does not allocate).  Thread 0 holds round (0,1), has seen its turn and is about
+to load `tail_page`; thread 1's allocation for round (1,0) fails and `invalidate_page` stores the invalid-page marker into `tail_page`;
+thread 0 then constructs its element through `(padded_page*)1`: a wild write.  (Not replayed on the real code; the page allocation must fail.) -/
+theorem alloc_failure_races_push :
+    let s := Pg.run 2 [[.push 0 0 1 .none, .push 0 1 2 .none], [.push 1 0 3 .alloc]]
+      (List.replicate 13 0 ++ List.replicate 7 1 ++ List.replicate 2 0)
+    s.l.poisoned = true ∧ s.l.wild = true ∧ s.l.tp = .inv := by
+  intro s
+  exact ⟨by decide, by decide, by decide⟩
+
+set_option maxRecDepth 100000 in
+/-- **what remains after a failed page allocation (2): `bad_last_alloc` leaks the page the thrower had allocated** (closed witness; as
+coded: `prepare_page` allocates before `spin_wait_until_my_turn`, which throws without giving the page back).  Thread 0 allocated page 2
+for round (2,0) and waits for its turn; thread 1's allocation for round (1,0) fails and makes `tail_counter` odd; thread 0 throws
+`bad_last_alloc`: at quiescence page 2 is live, not reachable from `head_page`, and nobody holds it. -/
+theorem bad_last_alloc_leaks_page :
+    let s := Pg.run 2 [[.push 2 0 5 .none], [.push 0 0 1 .none, .push 0 1 2 .none, .push 1 0 3 .alloc]]
+      (List.replicate 1 0 ++ List.replicate 31 1 ++ List.replicate 3 0)
+    s.l.poisoned = true ∧ s.ths.all (fun t => t.pc == .start && t.ops.isEmpty) = true ∧ (s.l.pages 2).st = .live ∧
+    s.l.hp = .pg 0 ∧ (s.l.pages 0).next = .inv ∧ s.l.done.map (fun d => (d.tid, d.res)) = [(1, .ok), (1, .ok), (1, .badAlloc), (0, .badLast)] := by
+  intro s
+  exact ⟨by decide, by decide, by decide, by decide, by decide, by decide⟩
+
+
+/-! ## 5. the non-concurrent and rarely used operations refine the abstract FIFO -/
+
+/-- **queue_ops_refine_fifo.**  Model `Seq.SQ` (Model/C09Seq.lean): one queue object = `head_counter`, `tail_counter`,
+`n_invalid_entries`, the slots, `my_capacity`; `Seq.abs q` = the items of the tickets `[head, tail)` in ticket order = the abstract FIFO
+content.  For every well-formed quiescent representation `q` (`WF`: `head ≤ tail`, `n_invalid_entries` counts the invalidated tickets
+in between, none is pending — an invariant of all the operations below):
+push / emplace appends (`abs ++ [v]`), a push whose constructor throws changes nothing; `try_pop` returns the first item, if any, and
+removes it (skipping invalidated tickets and giving their `n_invalid_entries` back); `try_push` / `try_emplace` refuse exactly when
+`tail - head ≥ my_capacity` and otherwise push; `size()` (signed) `= unsafe_size() = |abs|`, `empty() ↔ abs = []`; iterating from
+`unsafe_begin` to `unsafe_end` yields `abs` — the queue's content in FIFO order; `clear()` empties and keeps the capacity;
+`set_capacity(c)` installs `c`, or `infinite_capacity` for a negative `c` (a capacity `≤ 0` otherwise refuses every `try_push`), and
+leaves the content alone — also when it shrinks below the current size; copy construction / assignment and the element-wise move with
+unequal allocators (`concurrent_queue_rep::assign`) produce the same content in the destination and keep the destination's own capacity;
+`swap` and the moves with equal allocators exchange the contents and leave each object's `my_capacity` where it was (as coded).
+Negative `size()` (pending pops) only arises concurrently: `TicketQ` above. -/
+theorem queue_ops_refine_fifo (q : Seq.SQ) (hw : Seq.WF q) :
+    (∀ v, Seq.WF (Seq.push q v true) ∧ Seq.abs (Seq.push q v true) = Seq.abs q ++ [v]) ∧
+    (∀ v, Seq.WF (Seq.push q v false) ∧ Seq.abs (Seq.push q v false) = Seq.abs q) ∧
+    ((Seq.tryPop q).2 = (Seq.abs q).head? ∧ Seq.abs (Seq.tryPop q).1 = (Seq.abs q).tail ∧ Seq.WF (Seq.tryPop q).1) ∧
+    (∀ v, (Seq.tryPush q v true).2 = decide ((q.tail : Int) - (q.head : Int) < q.cap) ∧
+          Seq.abs (Seq.tryPush q v true).1 = (if (Seq.tryPush q v true).2 then Seq.abs q ++ [v] else Seq.abs q) ∧
+          Seq.WF (Seq.tryPush q v true).1) ∧
+    (Seq.size q = ((Seq.abs q).length : Int) ∧ Seq.unsafeSize q = (Seq.abs q).length ∧ Seq.empty q = (Seq.abs q).isEmpty) ∧
+    Seq.iter q = Seq.abs q ∧
+    (Seq.abs (Seq.clear q) = [] ∧ Seq.WF (Seq.clear q) ∧ (Seq.clear q).cap = q.cap) ∧
+    (∀ c, Seq.abs (Seq.setCap q c) = Seq.abs q ∧ Seq.WF (Seq.setCap q c) ∧
+          (Seq.setCap q c).cap = (if c < 0 then Generated.C09.infinite_capacity else c)) ∧
+    (∀ dst, Seq.WF (Seq.assignRep dst q) ∧ Seq.abs (Seq.assignRep dst q) = Seq.abs q ∧ (Seq.assignRep dst q).cap = dst.cap) ∧
+    (∀ r, Seq.abs (Seq.swapRep q r).1 = Seq.abs r ∧ Seq.abs (Seq.swapRep q r).2 = Seq.abs q ∧
+          (Seq.swapRep q r).1.cap = q.cap ∧ (Seq.swapRep q r).2.cap = r.cap) := by
+  have hsz := Seq.size_eq q hw
+  refine ⟨fun v => ?_, fun v => ?_, Seq.wf_tryPop q hw, fun v => ?_, ⟨hsz, ?_, ?_⟩, Seq.iterGo_eq _ _ _, ⟨rfl, ?_, rfl⟩,
+    fun c => ⟨rfl, hw, rfl⟩, fun dst => ⟨(Seq.wf_assign dst q hw).1, (Seq.wf_assign dst q hw).2, rfl⟩, fun r => ⟨rfl, rfl, rfl, rfl⟩⟩
+  · have := Seq.wf_push q hw v true; simpa using this
+  · have := Seq.wf_push q hw v false; simpa using this
+  · unfold Seq.tryPush
+    by_cases hc : (q.tail : Int) - (q.head : Int) ≥ q.cap
+    · simp only [hc, if_true]
+      refine ⟨by simp; omega, by simp, hw⟩
+    · simp only [hc, if_false]
+      have := Seq.wf_push q hw v true
+      refine ⟨by simp; omega, by simpa using this.2, this.1⟩
+  · unfold Seq.unsafeSize; rw [hsz]; simp
+  · unfold Seq.empty; rw [hsz]
+    cases h : Seq.abs q <;> simp
+  · exact ⟨Nat.le_refl _, rfl, fun k h1 h2 => absurd h2 (by simp [Seq.clear])⟩
+
+example : Seq.WF ({} : Seq.SQ) := ⟨Nat.le_refl _, rfl, fun k _ h => absurd h (Nat.not_lt_zero _)⟩
+
+example :
+    let q := Seq.push (Seq.push (Seq.push {} 5 true) 0 false) 7 true
+    Seq.abs q = [5, 7] ∧ Seq.size q = 2 ∧ (Seq.tryPop (Seq.tryPop q).1).2 = some 7 ∧ Seq.iter (Seq.assignRep {} q) = [5, 7] := by decide
 
 end TbbVerif.C09
